@@ -63,14 +63,17 @@ func runC17(r *Run) {
 					// first position can be >= p as well (the facts are the same script without the goal)
 					kinds := map[string]*leafInfo{}
 					var order []string
+					// the positions the model itself puts at or above p come first, each under its own key
+					for _, l := range pos {
+						if v, ok := res.Model[l.Atom.Name]; ok && v.Cmp(P) >= 0 && len(order) < 4 {
+							k := l.Path
+							kinds[k] = l
+							order = append(order, k)
+						}
+					}
 					for _, l := range pos {
 						k := stripIdx(l.Path) + lastIdx(l.Path)
 						if kinds[k] != nil {
-							continue
-						}
-						if v, ok := res.Model[l.Atom.Name]; ok && v.Cmp(P) >= 0 {
-							kinds[k] = l
-							order = append([]string{k}, order...)
 							continue
 						}
 						q := r.pool.Solve(&smt.Query{Script: facts + fmt.Sprintf("(assert (>= %s %s))", em.Ref(l.Atom), P), Solver: "z3", Timeout: 20 * time.Second})
